@@ -115,6 +115,13 @@ class Opaque:
         self.what = what
 
 
+class Fixed:
+    """a list whose elements (strings) are known one by one, in order: a list literal, extended by appends on this path"""
+
+    def __init__(self, items=()):
+        self.items = list(items)
+
+
 class Coll:
     """list / dict of strings filled by the code under analysis (immutable value: updates rebind the variable)"""
 
@@ -197,6 +204,11 @@ class ShapeInterp:
             if isinstance(st.value, ast.Constant):
                 return [env]
             c = st.value
+            if isinstance(c, ast.Call) and isinstance(c.func, ast.Attribute) and c.func.attr == "append" and isinstance(c.func.value, ast.Name) \
+                    and isinstance(env.get(c.func.value.id), Fixed) and c.args:
+                env = dict(env)
+                env[c.func.value.id] = Fixed(env[c.func.value.id].items + [self.tostr(self.ev(fi, c.args[0], env), fi, st)])
+                return [env]
             if isinstance(c, ast.Call) and isinstance(c.func, ast.Attribute) and c.func.attr in ("append", "add") and isinstance(c.func.value, ast.Name) \
                     and isinstance(env.get(c.func.value.id), Coll) and c.args:
                 env = dict(env)
@@ -429,6 +441,12 @@ class ShapeInterp:
             return Opaque("const")
         if isinstance(e, ast.List) and not e.elts:
             return Coll("list")
+        if isinstance(e, (ast.List, ast.Tuple)) and e.elts and not any(isinstance(x, ast.Starred) for x in e.elts):
+            vals = [self.ev(fi, x, env) for x in e.elts]
+            if all(isinstance(v, Str) for v in vals):
+                return Fixed(vals)
+            if isinstance(e, ast.Tuple):
+                return Pair(*vals)
         if isinstance(e, ast.Dict) and not e.keys:
             return Coll("map")
         if isinstance(e, ast.BinOp) and isinstance(e.op, ast.BitAnd):
@@ -656,6 +674,11 @@ class ShapeInterp:
                                                "pair_asc": getattr(src.elem, "asc", None) if isinstance(src.elem, Pair) and src.what == "edges" else None})
                     el = self.tostr(a.elem, fi, e)
                     return Str([("star", el)]) if not recv.p else Str([("opt", el + Str([("star", recv + el)]))])
+                if isinstance(a, Fixed):
+                    out_ = Str()
+                    for i_, it_ in enumerate(a.items):
+                        out_ = out_ + (recv if i_ else Str()) + it_
+                    return out_
                 if isinstance(a, Coll):
                     self.emissions.append({"fi": fi, "node": e, "what": a.what, "asc": a.asc, "pair_asc": None})
                     el = a.elem()
